@@ -58,6 +58,7 @@ type invT struct {
 
 type caseT struct {
 	initOK bool
+	// "failT": a healthy server, but the telemetry address cannot be bound (the README's "port not available" case);
 	// how the server fails inside the start-up window (initOK false): "fail" the real statsd.Server with an
 	// unknown mode; "failD" / "failC" / "failP" / "failN" a stub server whose Run returns at once an error that
 	// wraps context.DeadlineExceeded / wraps context.Canceled / is plain / is nil, while the manager's context is alive
@@ -92,7 +93,7 @@ func parseCase(line string) (*caseT, error) {
 	}
 	c := &caseT{initOK: parts[0][1] == "ok", failKind: parts[0][1]}
 	switch c.failKind {
-	case "ok", "fail", "failD", "failC", "failP", "failN":
+	case "ok", "fail", "failD", "failC", "failP", "failN", "failT":
 	default:
 		return nil, fmt.Errorf("bad cfg")
 	}
@@ -423,13 +424,27 @@ func runHistory(c *caseT) (string, error) {
 	if dyn {
 		ht["dynamic-headers"] = []string{"svc"}
 	}
+	// the forwarder's merge parallelism and slot count vary with the case: no setting may change when /next is asked for
+	hsum := 0
+	for _, iv := range c.invs {
+		hsum = hsum*31 + iv.ndp*7 + iv.pre*3 + iv.post + iv.lat
+	}
+	ht["consolidator-slots"] = []int{1, 2, 4}[((hsum%3)+3)%3]
+	ht["concurrent-merge"] = []int{1, 2, 4}[(((hsum/3)%3)+3)%3]
 	v.Set("http-transport", ht)
 	v.Set("http-servers", []string{"ingest"})
 	v.Set("http", map[string]any{"ingest": map[string]any{"address": ingestAddr, "enable-ingestion": true, "enable-healthcheck": true}})
 	mode := "forwarder"
-	if !c.initOK {
+	if !c.initOK && c.failKind != "failT" {
 		mode = "no-such-mode" // statsd.Server.Run fails at once: a server exit inside the start-up window
 	}
+	if c.failKind == "failT" {
+		// somebody else holds the telemetry port: the extension's telemetry server cannot start
+		if ln, err := net.Listen("tcp", teleAddr); err == nil {
+			defer ln.Close()
+		}
+	}
+
 	server := &statsd.Server{
 		FlushInterval:     time.Hour,
 		MaxReaders:        1,
@@ -446,7 +461,7 @@ func runHistory(c *caseT) (string, error) {
 		InternalNamespace: "statsd",
 	}
 	var ext interface{ Run(context.Context) error }
-	if !c.initOK && c.failKind != "fail" {
+	if !c.initOK && c.failKind != "fail" && c.failKind != "failT" {
 		ext = verifhooks.NewLambdaManager(quiet, strings.TrimPrefix(runtimeAPI.URL, "http://"), "gostatsd-extension", teleAddr, stubServer(c.failKind))
 	} else {
 		e, err := lambda.NewExtension(quiet, server, lambda.Options{
@@ -794,7 +809,7 @@ func gen(args []string) {
 	}
 	for i := 0; i < n; i++ {
 		c := &caseT{initOK: !r.Chance(1, 8)}
-		c.failKind = hx.Pick(r, []string{"fail", "failD", "failC", "failP", "failN"})
+		c.failKind = hx.Pick(r, []string{"fail", "failD", "failC", "failP", "failN", "failT"})
 		if c.initOK && r.Chance(1, 5) {
 			c.early = r.Range(1, 2)
 		}
